@@ -479,6 +479,7 @@ impl<'a> Oracle<'a> {
                     let mut natoms = 0usize;
                     let mut open: Vec<(usize, usize, usize)> = Vec::new(); // (rnum, head, kind)
                     let mut pairs = 0usize;
+                    let dfs: Vec<usize> = if graph_defect(&orig).is_none() { dfs_order(&orig).0 } else { Vec::new() };
                     for (i, e) in rec.events.iter().enumerate() {
                         match e {
                             Ev::Root(_) | Ev::Extend(_, _) => { path.push(natoms); natoms += 1 }
@@ -490,6 +491,16 @@ impl<'a> Oracle<'a> {
                                     if h0 == head { return fail(format!("join event #{} closes ring number {} on the atom that opened it", i, n)) }
                                     let rev = |k: usize| match k { 6 => 7, 7 => 6, x => x };
                                     if rev(b0) != *b { return fail(format!("join event #{}: the two ends of ring closure {} carry kinds {} and {}", i, n, b0, b)) }
+                                    // one join on each atom of the bond: the two heads, taken back to the ids of the adjacency list
+                                    // through the depth-first order the property defines, must be bonded there with these kinds
+                                    if h0 < dfs.len() && head < dfs.len() {
+                                        let (x, y) = (dfs[h0], dfs[head]);
+                                        let fwd = orig[x].bonds.iter().find(|c| c.tid == y).map(|c| bond_s(t, &c.kind).parse::<usize>().unwrap_or(99));
+                                        let back = orig[y].bonds.iter().find(|c| c.tid == x).map(|c| bond_s(t, &c.kind).parse::<usize>().unwrap_or(99));
+                                        if fwd != Some(b0) || back != Some(*b) {
+                                            return fail(format!("join event #{}: ring closure {} is opened on atom {} and closed on atom {} with kinds {} / {}, the adjacency list has {:?} / {:?} there", i, n, x, y, b0, b, fwd, back))
+                                        }
+                                    }
                                     pairs += 1;
                                 } else { open.push((*n, head, *b)) }
                             }
@@ -1370,43 +1381,48 @@ impl<'a> Oracle<'a> {
 
     // ---------------- C15: the trace maps every atom, bond and ring digit to its cursor ----------------
     fn c15(&mut self, toks: &[&str]) -> String {
-        let t = self.t;
         match toks {
             ["READ", h] => {
                 let s = match unhex(h) { Some(s) => s, None => return "SKIP".to_string() };
-                if read_events(t, &s).is_err() { return "SKIP".to_string() }
-                let chars: Vec<char> = s.chars().collect();
-                let tks = match tokenise(&chars) { Some(x) => x, None => return "SKIP".to_string() };
-                let den = match denote(t, &chars, &tks) { Some(x) => x, None => return "SKIP".to_string() };
-                let mut b = purr::graph::Builder::new();
-                let mut trace = purr::read::Trace::new();
-                if catch_unwind(AssertUnwindSafe(|| read(&s, &mut b, Some(&mut trace)))).is_err() { return fail(format!("{:?}: reading with a trace panics", s)) }
-                // atoms and ring digits: from the tokens alone
-                let atom_spans: Vec<(usize, usize)> = tks.iter().filter_map(|x| if let Tok::Atom(a, b) = x { Some((*a, *b)) } else { None }).collect();
-                let rnum_spans: Vec<(usize, usize)> = tks.iter().filter_map(|x| if let Tok::Rnum(_, a, b) = x { Some((*a, *b)) } else { None }).collect();
-                for (i, sp) in atom_spans.iter().enumerate() {
-                    match trace.atom(i) { Some(r) if (r.start, r.end) == *sp => {}, other => return fail(format!("{:?}: atom {} is the token at {:?}, the trace says {:?}", s, i, sp, other)) }
-                }
-                for i in atom_spans.len()..atom_spans.len() + 3 { if trace.atom(i).is_some() { return fail(format!("{:?}: the trace maps the non-existent atom {} to {:?}", s, i, trace.atom(i))) } }
-                for (k, sp) in rnum_spans.iter().enumerate() {
-                    match trace.rnum(k) { Some(r) if (r.start, r.end) == *sp => {}, other => return fail(format!("{:?}: ring-closure token {} is at {:?}, the trace says {:?}", s, k, sp, other)) }
-                }
-                if trace.rnum(rnum_spans.len()).is_some() { return fail(format!("{:?}: the trace has a ring-closure token past the last one", s)) }
-                // bonds, in both directions, when the graph builds
-                if let Ok((atoms, _, cursors)) = den {
-                    for ((a, bb), cur) in cursors.iter() {
-                        if trace.bond(*a, *bb) != Some(*cur) { return fail(format!("{:?}: bond {}->{} is written at cursor {}, the trace says {:?}", s, a, bb, cur, trace.bond(*a, *bb))) }
-                    }
-                    let n = atoms.len();
-                    if n <= 12 { for a in 0..n + 1 { for bb in 0..n + 1 {
-                        if trace.bond(a, bb).is_some() && !cursors.iter().any(|x| x.0 == (a, bb)) { return fail(format!("{:?}: the trace reports a cursor for the non-existent bond {}->{}", s, a, bb)) }
-                    } } }
-                }
-                "OK".to_string()
+                match trace_check(self.t, &s, &format!("{:?}", s)) { None => "SKIP".to_string(), Some(Ok(())) => "OK".to_string(), Some(Err(m)) => fail(m) }
             }
             _ => "SKIP".to_string(),
         }
     }
+}
+
+/// C15 on one string: the trace of the real reader against the token positions and the bond cursors of the
+/// independent interpreter (`label` names the string in messages); None when the string is not accepted
+pub fn trace_check(t: &Tables, s: &str, label: &str) -> Option<Result<(), String>> {
+    if read_events(t, s).is_err() { return None }
+    let chars: Vec<char> = s.chars().collect();
+    let tks = tokenise(&chars)?;
+    let den = denote(t, &chars, &tks)?;
+    let mut b = purr::graph::Builder::new();
+    let mut trace = purr::read::Trace::new();
+    if catch_unwind(AssertUnwindSafe(|| read(s, &mut b, Some(&mut trace)))).is_err() { return Some(Err(format!("{}: reading with a trace panics", label))) }
+    // atoms and ring digits: from the tokens alone
+    let atom_spans: Vec<(usize, usize)> = tks.iter().filter_map(|x| if let Tok::Atom(a, b) = x { Some((*a, *b)) } else { None }).collect();
+    let rnum_spans: Vec<(usize, usize)> = tks.iter().filter_map(|x| if let Tok::Rnum(_, a, b) = x { Some((*a, *b)) } else { None }).collect();
+    for (i, sp) in atom_spans.iter().enumerate() {
+        match trace.atom(i) { Some(r) if (r.start, r.end) == *sp => {}, other => return Some(Err(format!("{}: atom {} is the token at {:?}, the trace says {:?}", label, i, sp, other))) }
+    }
+    for i in atom_spans.len()..atom_spans.len() + 3 { if trace.atom(i).is_some() { return Some(Err(format!("{}: the trace maps the non-existent atom {} to {:?}", label, i, trace.atom(i)))) } }
+    for (k, sp) in rnum_spans.iter().enumerate() {
+        match trace.rnum(k) { Some(r) if (r.start, r.end) == *sp => {}, other => return Some(Err(format!("{}: ring-closure token {} is at {:?}, the trace says {:?}", label, k, sp, other))) }
+    }
+    if trace.rnum(rnum_spans.len()).is_some() { return Some(Err(format!("{}: the trace has a ring-closure token past the last one", label))) }
+    // bonds, in both directions, when the graph builds
+    if let Ok((atoms, _, cursors)) = den {
+        for ((a, bb), cur) in cursors.iter() {
+            if trace.bond(*a, *bb) != Some(*cur) { return Some(Err(format!("{}: bond {}->{} is written at cursor {}, the trace says {:?}", label, a, bb, cur, trace.bond(*a, *bb)))) }
+        }
+        let n = atoms.len();
+        if n <= 12 { for a in 0..n + 1 { for bb in 0..n + 1 {
+            if trace.bond(a, bb).is_some() && !cursors.iter().any(|x| x.0 == (a, bb)) { return Some(Err(format!("{}: the trace reports a cursor for the non-existent bond {}->{}", label, a, bb))) }
+        } } }
+    }
+    Some(Ok(()))
 }
 
 fn first_panic(resp: &str) -> String {
